@@ -304,6 +304,20 @@ class Check:
         self.traces_validated += len(requests)
         return n
 
+    def run_corpus(self, oracle):
+        """Regression corpus (minimised past failures and the inputs of the findings): runs first."""
+        path = os.path.join(VERIF, 'corpus', self.id + '.json')
+        if not os.path.exists(path):
+            return
+        with open(path) as f:
+            cases = json.load(f)
+        for c in cases:
+            self.count('corpus')
+            self.evaluations += 1
+            reason = oracle(c['case'])
+            if reason:
+                self.oracle_fail(c['case'], reason)
+
     # ----- verdict ---------------------------------------------------------
     def _write_replay(self, kind, payload):
         os.makedirs(REPLAY_DIR, exist_ok=True)
@@ -417,3 +431,24 @@ def generic_replay(ck, rp, oracle):
     for d in rp.get('disagreements', [])[:5]:
         print('  ', d)
     return 0
+
+
+_ERR_NAMES = ['ValueError', 'TypeError', 'AttributeError', 'LookupError', 'IndexError', 'KeyError',
+              'OSError', 'EOFError', 'UnicodeError', 'KeySignatureError', 'StructError', 'Hang']
+
+
+def exc_name(e):
+    """Map an exception to the model's small enum (class, never message text)."""
+    n = type(e).__name__
+    if n in _ERR_NAMES:
+        return n
+    if n == 'error' and type(e).__module__ == 'struct':
+        return 'StructError'
+    if isinstance(e, UnicodeError):
+        return 'UnicodeError'
+    for base in ('KeyError', 'IndexError', 'LookupError', 'EOFError', 'OSError', 'AttributeError',
+                 'TypeError', 'ValueError'):
+        import builtins
+        if isinstance(e, getattr(builtins, base)):
+            return base
+    return 'Other'
